@@ -296,7 +296,14 @@ class Convention(abc.ABC, Generic[GridKind, Index]):
         ----------
         .. [1] `CF Conventions v1.10, 4.4 Time Coordinate <https://cfconventions.org/Data/cf-conventions/cf-conventions-1.10/cf-conventions.html#time-coordinate>`_
         """
+        # The bounds of a time coordinate are decoded by xarray just like the coordinate itself,
+        # but they are not a time coordinate.
+        bounds_names = {
+            variable.attrs['bounds'] for variable in self.dataset.variables.values()
+            if 'bounds' in variable.attrs}
         for name in self.dataset.variables.keys():
+            if name in bounds_names:
+                continue
             variable = self.dataset[name]
             # xarray will automatically decode all time variables
             # and move the 'units' attribute over to encoding to store this change.
